@@ -33,6 +33,23 @@ theorem repair_syncs : Facts.c15_repair_syncs = true := by decide
 theorem onstart_repair_order : Facts.c15_onstart_repair_order =
     ["loadWalFile", "catchupReplay", "Stop", "CopyFile", "repairWalFile"] := by decide
 
+/-- `readGroupInfo` recognises rotated files by `[0-9]{3,}`: `%03d` is a minimum width, indices
+from 1000 on have more digits (the model keys files by index, whatever its size). -/
+theorem index_pattern : Facts.c15_index_pattern = true := by decide
+
+/-- `State.OnStart` decides "repair or start anyway" with `IsDataCorruptionError(err)`, a plain type
+assertion … -/
+theorem onstart_corruption_case : Facts.c15_onstart_corruption_case = true := by decide
+
+/-- … so `catchupReplay` must hand the decoder's `DataCorruptionError` back as it is: it tests it
+with the same helper and wraps no error (`%w`). -/
+theorem catchup_returns_raw_error :
+    Facts.c15_catchup_corruption_case = true ∧ Facts.c15_catchup_wraps_error = false := by decide
+
+/-- after a repair `OpenWAL` opens the group without options: default limits -/
+theorem default_limits : Wal.Inst.defaultHeadLimit = 10 * 1024 * 1024 ∧
+    Wal.Inst.defaultTotalLimit = 1024 * 1024 * 1024 := by decide
+
 /-- the driver's parameters satisfy the hypotheses of the theorems -/
 theorem inst_good : Good Inst.P where
   crcLen := fun _ => rfl
